@@ -412,16 +412,18 @@ OnExc(ev, idx) ==
 
 -----------------------------------------------------------------------------
 (* end: parse() returned or threw (C01, C05) *)
-MsgOf(who, m) ==
+MsgOfN(who, m, n) ==
    IF who = D!XActParseError THEN "action veto"
    ELSE IF who = D!XDepth THEN "maximum parser rule nesting depth exceeded"
    ELSE IF who = D!XBytes THEN "maximum allowed rule consumption reached"
    ELSE IF who = D!XCheck THEN "maximum allowed rule consumption exceeded"
    ELSE IF who < 1 THEN ""
-   ELSE IF MiOf(cs.cf) > 0 /\ Nodes[who].mihas = 1 THEN Nodes[who].mimsg       \* must_if: Errors::message< Rule >
+   \* must_if: Errors::message< Rule > -- for raise(); must_if does not override raise_nested(), which keeps normal<>'s message
+   ELSE IF MiOf(cs.cf) > 0 /\ Nodes[who].mihas = 1 /\ n = 0 THEN Nodes[who].mimsg
    ELSE IF m = 1 THEN (IF Nodes[who].thas = 1 THEN Nodes[who].tmsg ELSE "parse error matching " \o Nodes[who].s)   \* raise< T >: Control< T >::raise
    ELSE IF Nodes[who].hasmsg = 1 THEN Nodes[who].emsg
    ELSE "parse error matching " \o Nodes[who].dn
+MsgOf(who, m) == MsgOfN(who, m, 0)
 
 TopCtx == [A |-> cs.A, lim |-> Len(cs.w), fam |-> cs.af, vis |-> IF FullVis(cs.cf) THEN 1 ELSE 0,
            eol |-> cs.eol, ib |-> cs.ib, il |-> cs.il, ic |-> cs.ic, dep |-> 0, mi |-> MiOf(cs.cf)]
@@ -438,8 +440,8 @@ OnEnd(ev, idx) ==
    IN /\ verd' = VCap(verd
            \o If(stk # <<>>, V("C08", idx, 0, "run ended with open invocations", Len(stk), 0))
            \o If(~skip /\ ~agree, V(IF d.k = "X" /\ d.who \in D!XLimits THEN "C18" ELSE IF cs.cls >= 2 THEN "C07" ELSE IF cs.xt = 3 THEN "C03" ELSE IF MiOf(cs.cf) > 0 THEN "C05" ELSE IF cs.xt \in {4, 5} THEN "C08" ELSE PropOfRule(cs.g), idx, cs.g, "result of the run differs from the denotation", <<ev.v, ev.o, ev.x>>, d))
-           \o If(~skip /\ agree /\ perr /\ d.k = "X" /\ ev.msg # MsgOf(d.who, d.m),
-                 V("C05", idx, d.who, "parse_error does not name the first failing must/raise rule", ev.msg, MsgOf(d.who, d.m)))
+           \o If(~skip /\ agree /\ perr /\ d.k = "X" /\ ev.msg # MsgOfN(d.who, d.m, d.n),
+                 V("C05", idx, d.who, "parse_error does not name the first failing must/raise rule", ev.msg, MsgOfN(d.who, d.m, d.n)))
            \o If(~skip /\ agree /\ perr /\ d.k = "X" /\ ev.nested # d.n,
                  V("C05", idx, d.who, "nesting of the exception differs", ev.nested, d.n))
            \o If(perr /\ ev.pb - cs.ib >= 0 /\ ev.pb - cs.ib <= Len(cs.w) /\ (ev.pl # D!PosLine(ev.pb - cs.ib, PosCtx) \/ ev.pc # D!PosCol(ev.pb - cs.ib, PosCtx)),
